@@ -2,6 +2,7 @@
    Model: Macro.drain (SyncInterpreter._process_event_queue), sync_send, async_step (_run_event_loop body).
    Tied to the code by K-macro with bursts (send_events), raising actions and start-up raises (harness/props/c04.py). *)
 From XSM Require Import Model.Macro Proofs.FrameP Proofs.QueueP.
+From XSM Require Import Model.TreeLib Gen.GenGeom Proofs.SettleBridge.
 
 (* processing an event (with all its eventless follow-ups) never takes anything out of the queue: it only appends *)
 Theorem C04_processing_only_appends : forall eng m ev s,
@@ -54,3 +55,11 @@ Theorem C04_sync_external_discard_refuted :
   begins (fst (sync_send_events ex_m [evT 1; evT 2; evT 3; evT 4] s0)) = [("T"%string, 1); ("T"%string, 2)].
 Proof. vm_compute. reflexivity. Qed.
 Print Assumptions C04_sync_external_discard_refuted.
+(* TIE T: the drain loop these theorems are about is the loop of SyncInterpreter._process_event_queue - its shape (re-entrancy
+   guard; while the queue is not empty: count, cut when the count exceeds maxIterations, pop, hooks, process the event, settle)
+   is checked on every run and its cut test re-translated from the current source; on explicit fuel it is the model's `drain` *)
+Theorem C04_drain_loop_is_the_source : forall eng m s,
+  drain_src GenGeom.drain_cut_sync (S (m_max_iter m)) 0 (m_max_iter m) eng m s = drain (m_max_iter m) eng m s.
+Proof. exact drain_sync_bridge. Qed.
+Print Assumptions C04_drain_loop_is_the_source.
+
